@@ -18,6 +18,7 @@ RULE = ("Hypothesis: well-formed notes on 2 channels over 1-3 pitches (abutting 
         "Non-trivial: >= 2 notes of one key and >= 1 note whose duration is not in the list. Distinct by case digest.")
 RULE = RULE + " Rounds e-g: gaps up to 70 and values 72/96, one 10^4..10^5-tick note, several control changes per tick, SEQUENCE_CONTROL noise, channel pools, silent notes, far tick shifts, self-concatenated inputs."
 RULE = RULE + " Round h: default note values, standard_length, second-call histories, removal-only cases."
+RULE = RULE + " Round k: untied insertion order (all note-ons first)."
 ASSUMPTIONS = ["total duration (trailing INTERNAL marker) is not part of the statement"]
 TIERS = {"quick": dict(shards=8, examples=1500, alt_ppqn=[480], alt_shards=2),
          "thorough": dict(fuzz_runs=20000, fuzz_shards=4, size=2, shards=16, examples=25000, alt_ppqn=[480, 7, 1000], alt_shards=2)}
@@ -52,6 +53,10 @@ def _case(draw, size=1):
         # only remove (or leave everything alone)
         spec["notes"] = draw(gens.wellformed_notes(channels="pool", pitches=pitches, max_notes=6, lengths=sorted(set(values) | {1}),
                                                    max_gap=draw(st.sampled_from([0, 3, 30]))))
+    if not spec.get("double") and not spec.get("late_notes") and draw(st.integers(0, 5)) == 0:
+        # the absolute list was filled with all note-ons first: on a shared tick a note-on is stored ahead of the touching note-off
+        spec["route"], spec["perm"], spec["post"], spec["untied"] = "abs_ins", [0], None, True
+        spec.pop("split_waits", None)
     case = {"seq": spec, "values": list(values), "dne": draw(st.booleans())}
     if not exact and draw(st.integers(0, 9)) == 0:
         case["default_values"] = True     # note_values left at its default
